@@ -36,6 +36,24 @@ CHECKS.update({
     "C14": ("5.14", "history monitor over composition operators: exact unitary of result vs. product of the parts, operand fingerprints re-read after mutating the result; remove_identities and qft/iqft post-conditions",
             "Exploration over circuit pairs, remappings, n in 1..5, all qubit lists up to length 5 (sampled in quick).", "Trusted: own numpy unitary simulator."),
 })
+CHECKS.update({
+    "C05": ("5.5", "round-trip monitor: encode_input, input/output qubit lists, decode_output (str/list/int), decode_counts and circuit simulation vs. an independent codec model and the CPython reference",
+            "Exploration over signature-directed programs (every type x nesting shape), all argument values <=10 input bits.", "Trusted: own codec model, reversible simulator, reference semantics; blame on C01/C02 root causes per DESIGN 4.5."),
+    "C07": ("5.7", "reference-semantics monitor on caller/callee pairs (defs=, inline def, oraclize) + callee fingerprint before/after",
+            "Exploration over (callee, caller) pairs incl. tuple-element, repeated/swapped arguments and hostile names; exhaustive over inputs.", "Trusted: CPython reference with the callee's Python function in scope."),
+    "C08": ("5.8", "history monitor over binds of one unbound object: reference semantics per bound function, AST/parameter fingerprint after every bind, comparison with a fresh object",
+            "Exploration over parameterised programs x value domains x keyword orders x histories with failing binds.", "Trusted: CPython reference; a bound parameter is typed as a literal (discipline D)."),
+    "C10": ("5.10", "history + reference model: API-boundary recorder re-reads every live object's fingerprint after every operation and compares each result with the same operation run alone in a fresh interpreter; global-namespace and mutable-default snapshots",
+            "Exploration over random histories of public API operations over a pool with same-name and library-global-named functions.", "Trusted: structural fingerprints; like-for-like (same tree, same hash seed)."),
+    "C15": ("5.15", "exact output distributions of Grover circuits by sparse state-vector simulation, compared across syntactic forms and with an ideal hand-built oracle; black-box health monitors for blame",
+            "Exploration over solution sets on 2..5 (thorough 6) search bits, 1..N/4 solutions, 4-9 forms each.", "Trusted: own sparse simulator (validated against the dense one and qiskit)."),
+    "C16": ("5.16", "exact output distributions of Deutsch-Jozsa / Bernstein-Vazirani / Simon circuits by sparse state-vector simulation vs. the textbook guarantees; black-box health monitors for blame",
+            "Exhaustive at truth-table level for DJ on 1..3 bits and all BV secrets on 1..5 bits; all Simon periods on 2..4 bits with several functions.", "Trusted: own sparse simulator."),
+    "C17": ("5.17", "CLI monitor: main() run in-process and as subprocess; printed expressions parsed and compared on all assignments, DIMACS by search for a numbering, QASM with the API export",
+            "Exploration over scripts x forms x formats x entry points x versions.", "Trusted: own parser of sympy's printed syntax and boolean evaluator."),
+    "C18": ("5.18", "stand-in modelling library records the expression tree handed over by to_bqm; exact energies on every assignment vs. the count of true return bits; decode_samples vs. codec model",
+            "Exploration over generated programs, exhaustive over argument assignments (<=10 bits).", "Trusted: the stand-in's documented polynomial semantics for pyqubo's logic gates and constraints."),
+})
 NOT_YET = {}
 
 
